@@ -6,7 +6,7 @@ PROP = dict(
     theorems=["used_ids_exist", "instance_ids_allowed", "source_records_kept", "final_records_nonempty",
               "registered_strings_are_source", "names_depend_only_on_source",
               "fea_ids_say_source", "fea_empty_group_refuted", "fea_names_survive_merge",
-              "static_font_refs_intact", "fallback_chain_table", "source_to_fvar_ids_exist"],
+              "every_feature_record_follows_its_names", "static_font_refs_intact", "fallback_chain_table", "source_to_fvar_ids_exist"],
     prelude="Require Import FV.C18.Model.\nFrom Coq Require Import List NArith ZArith Bool.\nOpen Scope N_scope.",
     harness_args=lambda tier, seed: ["--seed", str(seed), "--n", str(N[tier][0]), "--fonts", str(N[tier][1])],
     shard=40,
@@ -22,8 +22,8 @@ PROP = dict(
          "result is compared with the model under the iteration order that call saw; (C) whole fonts compiled "
          "in-process from generated designspace+UFO sources (fontinfo naming fields, styleMap names, "
          "openTypeNameRecords, axis label names, instances whose names equal family / style / label strings, FEA "
-         "featureNames / cvParameters / size / STAT / name table with Windows, Mac and other-language names) decoded "
-         "with read-fonts; 12 fixed scenarios first (one per failure class found so far, repaired or known; the former "
+         "featureNames / cvParameters / size / STAT / name table with Windows, Mac and other-language names; name-bearing ssXX / cvXX features with script-specific rules or in both GSUB and GPOS, so that one tag has several feature records, every one of which is checked) decoded "
+         "with read-fonts; 14 fixed scenarios first (one per failure class found so far, repaired or known; the former "
          "hash-order ones are built 10 times), sources whose records above 255 share a string are built 8 times (the fixed scenario 16 times), other sources with ids above 255 4 times, sources with coinciding strings 3 times, every fourth other source twice. Non-trivial = "
          "non-empty add list / has a variable axis / a compiled font; distinct = distinct input.",
     trusted_base=["Coq 8.16.1 kernel (coqc, vm_compute for case evaluation and the refutation witnesses)",
